@@ -82,6 +82,19 @@ func ruleWordReset(p *Prog, r *Result) {
 				if x.Call.StaticCallee() == bt && len(x.Call.Args) == 2 && x.Call.Args[1] == ssa.Value(ph) {
 					hPos = ph
 				}
+				// the cut may live in a helper: l.pending(tokStart, tokLen) slicing the query at its parameter
+				if g := x.Call.StaticCallee(); g != nil && g != bt && p.InPkg(g) && len(g.Blocks) > 0 {
+					for k, a := range x.Call.Args {
+						if a != ssa.Value(ph) || k >= len(g.Params) {
+							continue
+						}
+						allInstrs(g, func(gi ssa.Instruction) {
+							if sl, ok := gi.(*ssa.Slice); ok && sl.Low == ssa.Value(g.Params[k]) {
+								hStart = ph
+							}
+						})
+					}
+				}
 			}
 		}
 	}
